@@ -183,7 +183,7 @@ def coq_crosscheck(sexps, model_out, tag):
     if not sexps:
         return 0
     os.makedirs(WORK, exist_ok=True)
-    d = os.path.join(WORK, "cases_" + tag)
+    d = os.path.join(WORK, "cases_%s_%d" % (tag, os.getpid()))      # per process: concurrent checks must not share the file
     os.makedirs(d, exist_ok=True)
     path = os.path.join(d, "cases.v")
     with open(path, "w") as f:
@@ -216,6 +216,8 @@ Eval vm_compute in (forallb (fun b => b) verdict, length verdict).
         raise InfraError("vm_compute cross-check produced no verdict:\n" + out[-2000:])
     if m.group(1) != "true" or int(m.group(2)) != len(sexps):
         raise InfraError("extraction cross-check FAILED (extracted OCaml and vm_compute disagree): " + out[-2000:])
+    import shutil
+    shutil.rmtree(d, ignore_errors=True)
     return len(sexps)
 
 
